@@ -231,6 +231,64 @@ impl Arm for SampledArm {
     }
 }
 
+/// Context / options / trace-info fields of a *freshly generated* honest proof set to boundary
+/// values: the AIR shape (periodic cycles, exemptions, assertion kinds, aux segment) varies per
+/// run, so that every assertion the air crate makes on proof-supplied parameters is reachable.
+struct FreshContextArm;
+
+impl Arm for FreshContextArm {
+    fn name(&self) -> String {
+        "fresh-case-context-edits".into()
+    }
+    fn runs(&self, tier: Tier, _seed: u64) -> u64 {
+        match tier {
+            Tier::Quick => 12_000,
+            Tier::Thorough => 400_000,
+        }
+    }
+    fn run(&self, _info: &RunInfo, ch: &mut Chooser, ctx: &mut Ctx) {
+        let Some(base) = fresh_base(ch) else {
+            ctx.skipped = Some("no_base_for_configuration");
+            return;
+        };
+        let fields: Vec<&wire::Field> =
+            base.layout().fields.iter().filter(|f| (f.kind == Kind::Count || f.kind == Kind::Tag) && f.name.starts_with("ctx.")).collect();
+        if fields.is_empty() {
+            ctx.skipped = Some("no_context_fields");
+            return;
+        }
+        let mut data = base.bytes().to_vec();
+        let mut what = String::new();
+        let edits = 1 + ch.weighted("fresh.edits", &[6, 2, 1]);
+        for _ in 0..edits {
+            let f = fields[ch.index("fresh.field", fields.len())];
+            let cur = field_value(&data, f);
+            let vals = wire::count_values(f.len, cur);
+            // small neighbours are the values that keep the rest of the proof parseable
+            let v = if ch.chance("fresh.near?", 2, 3) { cur.wrapping_add([1u64, u64::MAX, 2, u64::MAX - 1][ch.index("fresh.delta", 4)]) & mask(f.len) } else { vals[ch.index("fresh.val", vals.len())] };
+            data = wire::set_count(&data, f, v);
+            what = format!("{what}{}field {} set to {v} (was {cur})", if what.is_empty() { "" } else { "; " }, f.name);
+            ctx.fault("context_field_of_fresh_case");
+        }
+        let inputs = if ch.chance("deliver.perturbed_inputs?", 1, 8) { Inputs::Perturbed } else { Inputs::Matching };
+        let policy = ch.index("deliver.policy", 3);
+        danger_zone(ch);
+        let d = base.deliver(&data, false, inputs, policy, ch, ctx);
+        ctx.event_with("deliver", simcore::rng::fnv1a(format!("{}{what}{:?}{:?}", base.name(), d.parse, d.verify.as_ref().map(|v| v.short())).as_bytes()), || {
+            format!("fresh base [{}]: {what} (inputs {:?}, policy {policy}) -> parse {:?}, verify {}", base.name(), inputs, d.parse, d.verify.as_ref().map(|v| v.short()).unwrap_or("-".into()))
+        });
+        judge(ctx, "C06", base.as_ref(), &what, &d, data.len());
+    }
+}
+
+fn mask(len: usize) -> u64 {
+    if len >= 8 {
+        u64::MAX
+    } else {
+        (1u64 << (8 * len)) - 1
+    }
+}
+
 /// the sampled arm with fewer runs, served by the overflow-checking build
 struct SampledOvf;
 
@@ -260,6 +318,7 @@ pub fn spec() -> CheckSpec {
         iso(Box::new(EnumArm { kind: EnumKind::Truncations, index: OnceLock::new(), quick_bases: usize::MAX })),
         iso(Box::new(EnumArm { kind: EnumKind::BitFlips, index: OnceLock::new(), quick_bases: 12 })),
         iso(Box::new(SampledArm)),
+        iso(Box::new(FreshContextArm)),
         // the same inputs in the overflow-checking build: arithmetic overflow that release builds
         // wrap silently shows up as a panic there
         Box::new(IsoArm {
@@ -282,7 +341,7 @@ pub fn spec() -> CheckSpec {
         id: "C06",
         level: "fault_enumeration",
         build: "serial (+ overflow-checking build for two arms)",
-        rule: "bases = honest proofs of the protocol sim across every (field, hasher) pair, the three extensions and option / shape flavours (aux segment, wide trace, grinding), 0.5-4 KiB each. Enumerated completely per base: every length / count / size / tag field x all 256 values (one-byte fields) or {0, 1, 2, max/2, max/2+1, max-1, max, true+-1} (wider fields); 8 kinds x 16 variants of self-consistent structural edits (OOD frame size with matching states, Lagrange frame supplied, one opened row more / fewer in every query set with num_unique_queries adjusted, one FRI query more / fewer, field modulus of another length, one commitment more / fewer, GKR proof of announced length, remainder of another size); every truncation offset (torn write); every single-bit flip (quick: the first 12 bases, thorough: all). Sampled: byte overwrites, trailing garbage, removed / duplicated / swapped components with and without fixing counters and length prefixes, blob growth / shrinkage, splices of two proofs, random fields, random strings, pairs of faults; delivery by Proof::from_bytes or by Proof::read_from over ReadAdapter over a hostile-chunking simulated source; verification with matching or perturbed public inputs under three acceptance policies. Each case runs in an isolated worker with an allocation meter. Non-trivial = a fault fired (all runs); distinct = distinct event-log digests.".into(),
+        rule: "bases = honest proofs of the protocol sim across every (field, hasher) pair, the three extensions and option / shape flavours (aux segment, wide trace, grinding), 0.5-4 KiB each. Enumerated completely per base: every length / count / size / tag field x all 256 values (one-byte fields) or {0, 1, 2, max/2, max/2+1, max-1, max, true+-1} (wider fields); 8 kinds x 16 variants of self-consistent structural edits (OOD frame size with matching states, Lagrange frame supplied, one opened row more / fewer in every query set with num_unique_queries adjusted, one FRI query more / fewer, field modulus of another length, one commitment more / fewer, GKR proof of announced length, remainder of another size); every truncation offset (torn write); every single-bit flip (quick: the first 12 bases, thorough: all). Sampled: byte overwrites, trailing garbage, removed / duplicated / swapped components with and without fixing counters and length prefixes, blob growth / shrinkage, splices of two proofs, random fields, random strings, pairs of faults; context / options / trace-info fields of freshly generated proofs (AIR shape varies per run) set to neighbouring and boundary values; delivery by Proof::from_bytes or by Proof::read_from over ReadAdapter over a hostile-chunking simulated source; verification with matching or perturbed public inputs under three acceptance policies. Each case runs in an isolated worker with an allocation meter. Non-trivial = a fault fired (all runs); distinct = distinct event-log digests.".into(),
         interleaving_measure: "distinct (base, fault, delivery mode, chunking) histories".into(),
         real: vec!["Proof / Context / TraceInfo / ProofOptions / Commitments / Queries / OodFrame / FriProof deserializers", "winter-verifier verify() incl. VerifierChannel, composer, FRI verifier, Merkle batch verification", "utils::ReadAdapter on the streamed deliveries"],
         stub: vec!["the byte source (SimRead)", "SimAir (the AIR handed to verify(); asserts nothing itself)"],
